@@ -485,6 +485,55 @@ func templateText(c *Ctx, varName string) string {
 						return constant.StringVal(k.Value)
 					}
 				}
+				// a repo helper given the template in sections (variadic string constants) that it concatenates
+				if f := x.Call.StaticCallee(); f != nil && f.Blocks != nil && strings.HasPrefix(f.Pkg.Pkg.Path(), modPath) {
+					for _, a := range x.Call.Args {
+						sl, isSl := a.(*ssa.Slice)
+						if !isSl {
+							continue
+						}
+						al, isA := sl.X.(*ssa.Alloc)
+						if !isA || al.Referrers() == nil {
+							continue
+						}
+						parts := map[int64]string{}
+						for _, rf := range *al.Referrers() {
+							ia, isIA := rf.(*ssa.IndexAddr)
+							if !isIA || ia.Referrers() == nil {
+								continue
+							}
+							idx, okI := constInt(ia.Index)
+							for _, rr := range *ia.Referrers() {
+								if stt, isSt := rr.(*ssa.Store); isSt && okI {
+									if k, ok := stt.Val.(*ssa.Const); ok && k.Value != nil && k.Value.Kind() == constant.String {
+										parts[idx] = constant.StringVal(k.Value)
+									}
+								}
+							}
+						}
+						if len(parts) < 2 {
+							continue
+						}
+						// how the helper joins them: strings.Join(sections, SEP) or a WriteString / += loop (no separator)
+						sep, okJoin := "", false
+						for _, ci := range callsNamed(f, "strings.Join") {
+							if k, ok := ci.Common().Args[1].(*ssa.Const); ok && k.Value != nil && k.Value.Kind() == constant.String {
+								sep, okJoin = constant.StringVal(k.Value), true
+							}
+						}
+						if len(callsNamed(f, "(strings.Builder).WriteString", "(bytes.Buffer).WriteString")) > 0 {
+							okJoin = true
+						}
+						if !okJoin {
+							continue
+						}
+						var sb []string
+						for i := int64(0); i < int64(len(parts)); i++ {
+							sb = append(sb, parts[i])
+						}
+						return strings.Join(sb, sep)
+					}
+				}
 				for _, a := range x.Call.Args {
 					if s := find(a, d+1); s != "" {
 						return s
